@@ -412,10 +412,15 @@ theorem advanceLoop_w (al : AliasTable) (P fuel B : Nat) (hB : B ≤ 4294967296)
   | [e], vd, prev, _, _, _, hvd, _, _ => by
     simp only [advanceLoop]
     refine ⟨?_, by simp [EnteredAll]⟩
-    simp only [countVis, Nat.add_zero] at hvd
-    cases hv : stackTopVisible al [e] <;> simp [hv, countVis] at hvd ⊢
-    · exact hvd
-    · rw [hvd]; exact decU32_eq 1 (Nat.le_refl _) (by omega)
+    rw [countVis_cons] at hvd
+    have c0 : countVis al [] = 0 := rfl
+    cases hv : stackTopVisible al [e]
+    · simp only [hv, Bool.false_eq_true, if_false] at hvd
+      simp only [hv, Bool.false_eq_true, if_false, Bool.false_and]
+      omega
+    · simp only [hv, if_true] at hvd
+      simp only [hv, if_true, Bool.false_and, Bool.false_eq_true, if_false]
+      rw [decU32_eq vd (by omega) (by omega)]; omega
   | e :: p :: rest, vd, prev, hok, hss, hlen, hvd, hent, hend => by
     have key : (if stackTopVisible al (e :: p :: rest) = true then decU32 vd else vd) = countVis al (p :: rest) := by
       rw [countVis_cons] at hvd
@@ -499,5 +504,395 @@ theorem catchUp_w (al : AliasTable) (tf R S : Nat) (hS : S ≤ 4294967296) : ∀
       exact catchUp_w al tf R S hS fuel _ np (g.advance al tf) (advance_q (len_closed S) al tf it hl)
         (advance_w al np tf it g.ok g.ss (Nat.le_trans hl.length_le hS) hc.2 w)
     · exact w
+
+/-- `iterator_ascend` keeps the depth invariant — provided a cursor that is in a padding ends after `P`: then the
+entry it leaves is not the first child of an entered visible node (their starts would coincide). -/
+theorem ascend_w (al : AliasTable) (P : Nat) (it : Iter) (hok : StackOK it.stack) (hss : SS it.stack)
+    (hlen : it.stack.length ≤ 4294967296) (hpad : it.inPadding = true → it.endPosition.bytes > P) (w : Wd al P it) :
+    Wd al P (it.ascend al) := by
+  unfold Iter.ascend
+  cases hs : it.stack with
+  | nil => simp only; exact w
+  | cons e rest =>
+    simp only
+    have wd := w.depth
+    have we := w.ent
+    have hcl := countVis_le al (e :: rest)
+    rw [hs] at wd we hlen hok hss
+    rw [countVis_cons] at wd hcl
+    simp only [List.length_cons] at hlen hcl
+    have htv : Iter.treeIsVisible al it = stackTopVisible al (e :: rest) := by unfold Iter.treeIsVisible; rw [hs]
+    rw [htv]
+    cases hp : it.inPadding with
+    | false =>
+      simp only [hp, Bool.false_and, Bool.false_eq_true, if_false, Nat.add_zero] at wd we
+      have hip : (if e.childIndex > 0 then false else false) = false := by split <;> rfl
+      simp only [Bool.not_false, Bool.and_true, hip]
+      refine ⟨?_, by simpa using we.2⟩
+      simp only [Bool.false_and, Bool.false_eq_true, if_false, Nat.add_zero]
+      cases hv : stackTopVisible al (e :: rest)
+      · simp only [hv, Bool.false_eq_true, if_false] at wd ⊢; omega
+      · simp only [hv, if_true] at wd hcl ⊢
+        rw [decU32_eq _ (by omega) (by omega)]; omega
+    | true =>
+      simp only [hp, Bool.true_and, if_true] at wd we
+      simp only [Bool.not_true, Bool.and_false, Bool.false_eq_true, if_false]
+      have hd : it.visibleDepth = countVis al rest := by
+        cases hv : stackTopVisible al (e :: rest) <;> simp only [hv, Bool.false_eq_true, if_false, if_true] at wd <;> omega
+      by_cases hci : e.childIndex > 0
+      · simp only [hci, if_true]
+        exact ⟨by simpa using hd, by simpa using we⟩
+      · simp only [hci, if_false]
+        have hz : e.childIndex = 0 := by omega
+        refine ⟨?_, by simpa using we.tail⟩
+        simp only [Bool.true_and]
+        cases rest with
+        | nil => simpa [stackTopVisible] using hd
+        | cons p rest' =>
+          cases hv2 : stackTopVisible al (p :: rest') with
+          | false => simpa using hd
+          | true =>
+            exfalso
+            have hle := we.1 hv2
+            have hgt := hpad hp
+            obtain ⟨k1, k2, _⟩ := hok
+            rw [hz] at k1 k2
+            have hpk : p.subtree.kids ≠ [] := by intro h0; rw [h0] at k1; simp at k1
+            have hfp := ((hss p (by simp)).total hpk).2
+            have hfirst : firstPad p.subtree.kids = e.subtree.data.padding.bytes := by
+              cases hk : p.subtree.kids with
+              | nil => exact absurd hk hpk
+              | cons c cs => rw [hk] at k1; simp at k1; subst k1; rfl
+            have hpre : prefixBytes p.subtree.kids 0 = 0 := by cases p.subtree.kids <;> rfl
+            simp only [Iter.endPosition, hs, hp, if_true, length_add_bytes] at hgt
+            unfold Entry.left at hle
+            omega
+
+/-- The bottom entry of a stack. -/
+def bottom : List Entry → Option Entry
+  | [] => none
+  | [e] => some e
+  | _ :: rest => bottom rest
+
+/-- A property of the bottom entry. -/
+def BotP (pr : Entry → Prop) (stack : List Entry) : Prop := ∀ b, bottom stack = some b → pr b
+
+theorem botP_closed (pr : Entry → Prop) : PushClosed (BotP pr) where
+  nil := by intro b h; cases h
+  tail := by
+    intro e rest h b hb
+    cases rest with
+    | nil => cases hb
+    | cons p r => exact h b hb
+  push := by
+    intro c e rest h _ b hb
+    exact h b hb
+
+theorem countVis_bottom (al : AliasTable) : ∀ (stack : List Entry) (b : Entry), bottom stack = some b →
+    b.subtree.data.visible = true → 1 ≤ countVis al stack
+  | [], _, h, _ => by cases h
+  | [e], b, h, hv => by
+    simp only [bottom, Option.some.injEq] at h; subst h
+    simp [countVis, stackTopVisible, hv]
+  | e :: p :: rest, b, h, hv => by
+    have := countVis_bottom al (p :: rest) b h hv
+    rw [countVis_cons]; omega
+
+/-- A cursor that is not done has visible depth ≥ 1 (its visible root is counted). -/
+theorem depth_pos (al : AliasTable) (P : Nat) (it : Iter) (w : Wd al P it) (hnd : it.done = false)
+    (hb : BotP (fun b => b.subtree.data.visible = true ∧ b.left ≤ P) it.stack)
+    (hpad : it.inPadding = true → it.endPosition.bytes > P) : 1 ≤ it.visibleDepth := by
+  have wd := w.depth
+  cases hs : it.stack with
+  | nil => simp [Iter.done, hs] at hnd
+  | cons e rest =>
+    rw [hs] at wd hb
+    cases rest with
+    | nil =>
+      obtain ⟨bv, bl⟩ := hb e rfl
+      cases hp : it.inPadding with
+      | true =>
+        have := hpad hp
+        simp only [Iter.endPosition, hs, hp, if_true, length_add_bytes] at this
+        unfold Entry.left at bl; omega
+      | false =>
+        simp only [hp, Bool.false_and, Bool.false_eq_true, if_false, Nat.add_zero] at wd
+        have := countVis_bottom al [e] e rfl bv
+        omega
+    | cons p rest' =>
+      obtain ⟨b, hbb⟩ : ∃ b, bottom (p :: rest') = some b := by
+        clear wd hb hs
+        induction rest' generalizing p with
+        | nil => exact ⟨p, rfl⟩
+        | cons q r ih => exact ih q
+      have hbv := (hb b hbb).1
+      have := countVis_bottom al (p :: rest') b hbb hbv
+      rw [countVis_cons] at wd
+      cases hv : stackTopVisible al (e :: p :: rest') <;> simp only [hv, Bool.and_false, Bool.and_true, Bool.false_eq_true, if_false, if_true] at wd
+      · omega
+      · split at wd <;> omega
+
+/-- The depth alignment never ascends past the root while the other cursor is not done (`d ≥ 1`). -/
+theorem ascendTo_w (al : AliasTable) (P R S : Nat) (hS : S ≤ 4294967296) : ∀ (fuel : Nat) (it : Iter) (d : Nat),
+    Geo R it → LenOK S it.stack → Wd al P it → it.endPosition.bytes > P → 1 ≤ d → it.done = false →
+    Wd al P (ascendTo al fuel it d) ∧ (ascendTo al fuel it d).done = false
+  | 0, it, _, _, _, w, _, _, hnd => by simpa [ascendTo] using ⟨w, hnd⟩
+  | fuel + 1, it, d, g, hl, w, he, hd, hnd => by
+    unfold ascendTo
+    split
+    · rename_i hc
+      simp only [Bool.and_eq_true, decide_eq_true_eq, Bool.not_eq_true'] at hc
+      have w' := ascend_w al P it g.ok g.ss (Nat.le_trans hl.length_le hS) (fun _ => he) w
+      cases hs : it.stack with
+      | nil => simp [Iter.done, hs] at hnd
+      | cons e rest =>
+        cases rest with
+        | nil =>
+          exfalso
+          have wd := w.depth
+          rw [hs, countVis_cons] at wd
+          have : countVis al [] = 0 := rfl
+          split at wd <;> split at wd <;> omega
+        | cons p rest' =>
+          have he' := ascend_end al it e p rest' hs g.ok g.ss
+          have hnd' : (it.ascend al).done = false := by simp [Iter.ascend, hs, Iter.done]
+          exact ascendTo_w al P R S hS fuel _ d (g.ascend al) (ascend_q (len_closed S) al it hl) w' (by omega) hd hnd'
+    · exact ⟨w, hnd⟩
+
+/-! ## Part 4: the loop -/
+
+/-- Everything known about one cursor at loop position `P` (`B` = the loop start, `R` = end of the root, `S` = size of the tree). -/
+structure Cur (al : AliasTable) (R S B P : Nat) (it : Iter) : Prop where
+  geo : Geo R it
+  bot : Bot R it.stack
+  botp : BotP (fun b => b.subtree.data.visible = true ∧ b.left ≤ B) it.stack
+  len : LenOK S it.stack
+  w : Wd al P it
+
+theorem Cur.mono {al : AliasTable} {R S B P P' : Nat} {it : Iter} (h : P ≤ P') (c : Cur al R S B P it) : Cur al R S B P' it :=
+  ⟨c.geo, c.bot, c.botp, c.len, c.w.mono h⟩
+
+theorem Cur.descend {al : AliasTable} {R S B P : Nat} {it : Iter} (fuel goal : Nat) (hg : goal ≤ P) (c : Cur al R S B P it) :
+    Cur al R S B P (it.descend al fuel goal).1 :=
+  ⟨c.geo.descend al fuel goal, descend_q (bot_closed R) al fuel it goal c.bot, descend_q (botP_closed _) al fuel it goal c.botp,
+   descend_q (len_closed S) al fuel it goal c.len, descend_w al P fuel it goal hg c.w⟩
+
+theorem Cur.catchUp {al : AliasTable} {R S B : Nat} (hS : S ≤ 4294967296) (tf fuel : Nat) {it : Iter} (np : Nat)
+    (c : Cur al R S B np it) : Cur al R S B np (catchUp al tf fuel it np).1 :=
+  ⟨Geo.catchUp al tf fuel it np c.geo, catchUp_q (bot_closed R) al tf fuel it np c.bot,
+   catchUp_q (botP_closed _) al tf fuel it np c.botp, catchUp_q (len_closed S) al tf fuel it np c.len,
+   catchUp_w al tf R S hS fuel it np c.geo c.len c.w⟩
+
+theorem botp_weaken {B P : Nat} (h : B ≤ P) {stack : List Entry}
+    (hb : BotP (fun b => b.subtree.data.visible = true ∧ b.left ≤ B) stack) :
+    BotP (fun b => b.subtree.data.visible = true ∧ b.left ≤ P) stack :=
+  fun b hbb => ⟨(hb b hbb).1, Nat.le_trans (hb b hbb).2 h⟩
+
+theorem ascendTo_done_of_done (al : AliasTable) (fuel : Nat) (it : Iter) (d : Nat) (h : it.done = true) :
+    (ascendTo al fuel it d).done = true := by
+  cases fuel with
+  | zero => simpa [ascendTo] using h
+  | succ f => unfold ascendTo; simp [h]
+
+/-- The tail of an iteration (catch up, align depths) for two cursors that are not done. -/
+theorem tail_facts (al : AliasTable) (tf F Ro Rn So Sn B np : Nat) (hSo : So ≤ 4294967296) (hSn : Sn ≤ 4294967296)
+    (a b : Iter) (ca : Cur al Ro So B np a) (cb : Cur al Rn Sn B np b) (hB : B ≤ np)
+    (ha : a.done = false) (hb : b.done = false)
+    (f1 : (catchUp al tf F a np).2 = false) (f2 : (catchUp al tf F b np).2 = false) :
+    let cu1 := (catchUp al tf F a np).1
+    let cu2 := (catchUp al tf F b np).1
+    let o := ascendTo al (cu1.stack.length + 1) cu1 cu2.visibleDepth
+    let n := ascendTo al (cu2.stack.length + 1) cu2 o.visibleDepth
+    ((o.done = true ∨ n.done = true) → min Ro Rn ≤ np) ∧
+    (o.done = false → n.done = false → Cur al Ro So B np o ∧ Cur al Rn Sn B np n) := by
+  intro cu1 cu2 o n
+  have c1 : Cur al Ro So B np cu1 := ca.catchUp hSo tf F np
+  have c2 : Cur al Rn Sn B np cu2 := cb.catchUp hSn tf F np
+  cases hd1 : cu1.done with
+  | true =>
+    have r1 := catchUp_done al tf Ro F a np ca.geo ca.bot ha hd1
+    have od : o.done = true := ascendTo_done_of_done al _ cu1 _ hd1
+    exact ⟨fun _ => by omega, fun h => by rw [od] at h; cases h⟩
+  | false =>
+    cases hd2 : cu2.done with
+    | true =>
+      have r2 := catchUp_done al tf Rn F b np cb.geo cb.bot hb hd2
+      have nd : n.done = true := ascendTo_done_of_done al _ cu2 _ hd2
+      exact ⟨fun _ => by omega, fun _ h => by rw [nd] at h; cases h⟩
+    | false =>
+      have p1 := (catchUp_post al tf F a np f1).resolve_left (by simp [cu1] at hd1 ⊢; exact hd1)
+      have p2 := (catchUp_post al tf F b np f2).resolve_left (by simp [cu2] at hd2 ⊢; exact hd2)
+      have d2 := depth_pos al np cu2 c2.w hd2 (botp_weaken hB c2.botp) (fun _ => p2)
+      obtain ⟨wo, ndo⟩ := ascendTo_w al np Ro So hSo (cu1.stack.length + 1) cu1 cu2.visibleDepth c1.geo c1.len c1.w p1 d2 hd1
+      have eo := ascendTo_end al (cu1.stack.length + 1) cu1 cu2.visibleDepth c1.geo.ok c1.geo.ss ndo
+      have co : Cur al Ro So B np o :=
+        ⟨Geo.ascendTo al _ _ _ c1.geo, ascendTo_q (bot_closed Ro) al _ _ _ c1.bot, ascendTo_q (botP_closed _) al _ _ _ c1.botp,
+         ascendTo_q (len_closed So) al _ _ _ c1.len, wo⟩
+      have d1 := depth_pos al np o wo ndo (botp_weaken hB co.botp) (fun _ => Nat.lt_of_lt_of_le p1 eo)
+      obtain ⟨wn, ndn⟩ := ascendTo_w al np Rn Sn hSn (cu2.stack.length + 1) cu2 o.visibleDepth c2.geo c2.len c2.w p2 d1 hd2
+      have cn : Cur al Rn Sn B np n :=
+        ⟨Geo.ascendTo al _ _ _ c2.geo, ascendTo_q (bot_closed Rn) al _ _ _ c2.bot, ascendTo_q (botP_closed _) al _ _ _ c2.botp,
+         ascendTo_q (len_closed Sn) al _ _ _ c2.len, wn⟩
+      refine ⟨fun h => ?_, fun _ _ => ⟨co, cn⟩⟩
+      rcases h with h | h
+      · rw [ndo] at h; cases h
+      · rw [ndn] at h; cases h
+
+/-- The loop invariant, extended by the depth invariant of both cursors. -/
+structure Inv2 (al : AliasTable) (Ro Rn So Sn B : Nat) (s : LoopSt) : Prop where
+  inv : Inv Ro Rn s
+  co : Cur al Ro So B s.position.bytes s.o
+  cn : Cur al Rn Sn B s.position.bytes s.n
+  od : s.o.done = false
+  nd : s.n.done = false
+  hB : B ≤ s.position.bytes
+
+theorem descend_not_done (al : AliasTable) (fuel : Nat) (it : Iter) (goal : Nat) (h : it.done = false) :
+    (it.descend al fuel goal).1.done = false := by
+  have hne : it.stack ≠ [] := by intro h0; simp [Iter.done, h0] at h
+  have := descend_nonempty al fuel it goal hne
+  cases hs : (it.descend al fuel goal).1.stack with
+  | nil => exact absurd hs this
+  | cons e rest => simp [Iter.done, hs]
+
+theorem midStep_cur (al : AliasTable) (fixed : Bool) (diffs : List TSRange) (tf Ro Rn So Sn B : Nat) (s : LoopSt)
+    (h : Inv2 al Ro Rn So Sn B s) :
+    Cur al Ro So B s.position.bytes (midStep al fixed diffs tf s).1 ∧
+    Cur al Rn Sn B s.position.bytes (midStep al fixed diffs tf s).2.1 ∧
+    (midStep al fixed diffs tf s).1.done = false ∧ (midStep al fixed diffs tf s).2.1.done = false := by
+  have cod := h.co.descend tf s.position.bytes (Nat.le_refl _)
+  have cnd := h.cn.descend tf s.position.bytes (Nat.le_refl _)
+  have dod := descend_not_done al tf s.o s.position.bytes h.od
+  have dnd := descend_not_done al tf s.n s.position.bytes h.nd
+  have co := h.co
+  have cn := h.cn
+  have od := h.od
+  have nd := h.nd
+  unfold midStep
+  simp only
+  repeat' split
+  all_goals exact ⟨by assumption, by assumption, by assumption, by assumption⟩
+
+theorem loopBody_inv2 (al : AliasTable) (fixed : Bool) (diffs : List TSRange) (tf Ro Rn So Sn B : Nat)
+    (hSo : So ≤ 4294967296) (hSn : Sn ≤ 4294967296) (s : LoopSt) (h : Inv2 al Ro Rn So Sn B s)
+    (hf : (loopBody al fixed diffs tf s).fuelOut = false) :
+    (((loopBody al fixed diffs tf s).o.done = true ∨ (loopBody al fixed diffs tf s).n.done = true) →
+      min Ro Rn ≤ (loopBody al fixed diffs tf s).position.bytes) ∧
+    ((loopBody al fixed diffs tf s).o.done = false → (loopBody al fixed diffs tf s).n.done = false →
+      Inv2 al Ro Rn So Sn B (loopBody al fixed diffs tf s)) := by
+  obtain ⟨_, _, m1, _⟩ := midStep_inv al fixed diffs tf Ro Rn s h.inv
+  obtain ⟨ca, cb, da, db⟩ := midStep_cur al fixed diffs tf Ro Rn So Sn B s h
+  have hnext := (loopBody_inv al fixed diffs tf Ro Rn s h.inv).2
+  have hB := h.hB
+  have hf' := hf
+  unfold loopBody at hf'
+  simp only [Bool.or_eq_false_iff] at hf'
+  have T := tail_facts al tf (2 * tf + 2) Ro Rn So Sn B (midStep al fixed diffs tf s).2.2.2.1.bytes hSo hSn
+    (midStep al fixed diffs tf s).1 (midStep al fixed diffs tf s).2.1 (ca.mono m1) (cb.mono m1) (by omega) da db hf'.1.2 hf'.2
+  simp only at T
+  refine ⟨fun hd => ?_, fun hdo hdn => ?_⟩
+  · refine T.1 ?_
+    unfold loopBody at hd
+    exact hd
+  · have i := hnext hf hdo hdn
+    have hdo' := hdo
+    have hdn' := hdn
+    unfold loopBody at hdo' hdn'
+    obtain ⟨co, cn⟩ := T.2 hdo' hdn'
+    refine ⟨i, ?_, ?_, hdo, hdn, ?_⟩
+    · unfold loopBody; exact co
+    · unfold loopBody; exact cn
+    · unfold loopBody; simp only; omega
+
+/-- When the loop stops (without running out of fuel) it has reached the end of the shorter tree. -/
+theorem mainLoop_reach (al : AliasTable) (fixed : Bool) (diffs : List TSRange) (tf Ro Rn So Sn B : Nat)
+    (hSo : So ≤ 4294967296) (hSn : Sn ≤ 4294967296) : ∀ (fuel : Nat) (s : LoopSt), Inv2 al Ro Rn So Sn B s →
+    (mainLoop al fixed diffs tf fuel s).fuelOut = false → min Ro Rn ≤ (mainLoop al fixed diffs tf fuel s).position.bytes
+  | 0, s, _, hf => by simp [mainLoop] at hf
+  | fuel + 1, s, h, hf => by
+    have hbf := (mainLoop_fuel_false al fixed diffs tf (fuel + 1) s hf).2
+    obtain ⟨A, Bc⟩ := loopBody_inv2 al fixed diffs tf Ro Rn So Sn B hSo hSn s h hbf
+    unfold mainLoop at hf ⊢
+    simp only at hf ⊢
+    split
+    · rename_i hc
+      simp only [hc, if_true] at hf
+      simp only [Bool.and_eq_true, Bool.not_eq_true'] at hc
+      exact mainLoop_reach al fixed diffs tf Ro Rn So Sn B hSo hSn fuel _ (Bc hc.1 hc.2) hf
+    · rename_i hc
+      simp only [Bool.and_eq_true, Bool.not_eq_true', not_and, Bool.not_eq_false] at hc
+      refine A ?_
+      cases ho : (loopBody al fixed diffs tf s).o.done with
+      | true => exact Or.inl rfl
+      | false => exact Or.inr (hc ho)
+
+/-- The roots are visible and the trees are not absurdly large (both true of every real tree). -/
+def rootOK (t : Tree) : Bool := t.data.visible && decide (t.size ≤ 4294967296)
+
+theorem Cur.iterNew (al : AliasTable) (t : Tree) (B P : Nat) (hs : AllSized t) (hr : rootOK t = true)
+    (hB : t.data.padding.bytes ≤ B) (hP : B ≤ P) : Cur al t.totalBytes t.size B P (iterNew t) := by
+  simp only [rootOK, Bool.and_eq_true, decide_eq_true_eq] at hr
+  refine ⟨Geo.iterNew t hs, ?_, ?_, ?_, ?_, ?_⟩
+  · intro _; simp [TsVerif.C04.iterNew, bottomEnd, length_zero]
+  · intro b hb
+    simp only [TsVerif.C04.iterNew, bottom, Option.some.injEq] at hb
+    subst hb
+    exact ⟨hr.1, by simp [Entry.left, length_zero]; exact hB⟩
+  · exact ⟨by simp [TsVerif.C04.iterNew], trivial⟩
+  · simp [TsVerif.C04.iterNew, countVis, stackTopVisible, hr.1]
+  · simp only [TsVerif.C04.iterNew, Bool.false_eq_true, if_false]
+    exact ⟨fun _ => by simp [Entry.left, length_zero]; omega, trivial⟩
+
+/-- `reach` for `ts_subtree_get_changed_ranges`: the spans of the walk end at or after the end of the shorter tree. -/
+theorem walk_reach (al : AliasTable) (fixed : Bool) (old new : Tree) (diffs : List TSRange)
+    (hso : AllSized old) (hsn : AllSized new) (hentry : entryOK old new = true)
+    (hro : rootOK old = true) (hrn : rootOK new = true)
+    (hfuel : (changedRanges al fixed old new diffs).fuelOut = false) :
+    min old.totalBytes new.totalBytes ≤ spansEnd (loopStart old new) (changedRanges al fixed old new diffs).spans := by
+  have hentry' := of_decide_eq_true hentry
+  have hro' := hro
+  have hrn' := hrn
+  simp only [rootOK, Bool.and_eq_true, decide_eq_true_eq] at hro' hrn'
+  have e1 := iterNew_start old
+  have e2 := iterNew_start new
+  unfold changedRanges changedTrace at hfuel ⊢
+  simp only at hfuel ⊢
+  have key : ∀ (position nextPosition : Length), position.bytes = loopStart old new → nextPosition.bytes = position.bytes →
+      (mainLoop al fixed diffs (old.size + new.size + 2) (4 * (old.size + new.size + 2) + 8)
+        { o := iterNew old, n := iterNew new, position := position, nextPosition := nextPosition, diffIdx := 0, spans := [] }).fuelOut = false →
+      min old.totalBytes new.totalBytes ≤ spansEnd (loopStart old new)
+        (mainLoop al fixed diffs (old.size + new.size + 2) (4 * (old.size + new.size + 2) + 8)
+          { o := iterNew old, n := iterNew new, position := position, nextPosition := nextPosition, diffIdx := 0, spans := [] }).spans.reverse := by
+    intro position nextPosition hp hn hf
+    have hch := mainLoop_chain al fixed diffs (old.size + new.size + 2) (loopStart old new) (4 * (old.size + new.size + 2) + 8)
+      { o := iterNew old, n := iterNew new, position := position, nextPosition := nextPosition, diffIdx := 0, spans := [] }
+      (by simp [spansChain]) (by simp [spansEnd, hp])
+    rw [hch.2]
+    refine mainLoop_reach al fixed diffs _ old.totalBytes new.totalBytes old.size new.size (loopStart old new) hro'.2 hrn'.2 _ _ ?_ hf
+    have hlo : old.data.padding.bytes ≤ loopStart old new := by unfold loopStart; omega
+    have hln : new.data.padding.bytes ≤ loopStart old new := by unfold loopStart; omega
+    refine ⟨?_, ?_, ?_, rfl, rfl, ?_⟩
+    · exact ⟨Geo.iterNew old hso, Geo.iterNew new hsn, by simp only [iterNew_end]; omega, by simp only [iterNew_end]; omega, hn⟩
+    · exact Cur.iterNew al old _ _ hso hro hlo (by simp only; omega)
+    · exact Cur.iterNew al new _ _ hsn hrn hln (by simp only; omega)
+    · simp only; omega
+  refine key _ _ ?_ ?_ hfuel
+  · unfold loopStart; split <;> (try split) <;> simp only <;> omega
+  · split <;> (try split) <;> simp only <;> omega
+
+/-- Where the earlier of the two roots starts. -/
+def firstStart (old new : Tree) : Nat :=
+  min (iterNew old).startPosition.bytes (iterNew new).startPosition.bytes
+
+theorem pre_shape' (al : AliasTable) (fixed : Bool) (old new : Tree) (diffs : List TSRange) :
+    ((changedRanges al fixed old new diffs).pre = [] ∧ firstStart old new = loopStart old new) ∨
+    ∃ p np : Length, (changedRanges al fixed old new diffs).pre = [(p, np)] ∧ p.bytes = firstStart old new ∧ np.bytes = loopStart old new := by
+  unfold changedRanges changedTrace loopStart firstStart
+  simp only
+  split
+  · rename_i h; exact Or.inr ⟨_, _, rfl, by omega, by omega⟩
+  · split
+    · rename_i h; exact Or.inr ⟨_, _, rfl, by omega, by omega⟩
+    · exact Or.inl ⟨rfl, by omega⟩
 
 end TsVerif.C04
